@@ -54,18 +54,52 @@ class Fact(object):
         return "%r>=0[%s]" % (self.p, self.origin)
 
 
-class Acc(object):
-    __slots__ = ("arr", "var", "idx", "text", "rw", "line", "ranges", "facts", "stmt", "length", "kind", "func", "callee", "cparam")
+class NameCanon(object):
+    """alpha-renaming of one function: parameters become p0, p1, ... by position and locals v0, v1, ... by order of
+    declaration, so that the keys of the ledger do not change when a variable is renamed"""
 
-    def key(self):
+    def __init__(self, func):
+        self.map = {}
+        for i, p in enumerate(func.params):
+            self.map[p.name] = "p%d" % i
+        n = 0
+        for st in swalk(func.body):
+            if st.k == "decl" and st.var.name not in self.map:
+                self.map[st.var.name] = "v%d" % n
+                n += 1
+        self._re = re.compile(r"\b[A-Za-z_]\w*\b")
+
+    def text(self, t):
+        if not t:
+            return ""
+        return self._re.sub(lambda m: self.map.get(m.group(0), m.group(0)), t)
+
+
+class Acc(object):
+    __slots__ = ("arr", "var", "idx", "text", "rw", "line", "ranges", "facts", "stmt", "length", "kind", "func", "callee", "cparam",
+                 "canon")
+
+    def _c(self, t):
+        c = getattr(self, "canon", None)
+        return norm_text(c(t) if c is not None else t)
+
+    def plain_key(self):
+        """human-readable key with the source's own names: function|array|access (used by the reason table)"""
         return "%s|%s|%s" % (self.func, self.arr, norm_text(self.text))
 
+    def key(self):
+        """alpha-renamed key (function, array, access text)"""
+        return (self.func, self._c(self.arr), self._c(self.text))
+
     def key4(self):
-        """site key: function | array | access text | statement text (all blank-free)"""
-        return "%s|%s|%s|%s" % (self.func, self.arr, norm_text(self.text), norm_text(self.stmt))
+        """site key: (function, array, access text, statement text), alpha-renamed and blank-free"""
+        return (self.func, self._c(self.arr), self._c(self.text), self._c(self.stmt))
 
     def cond_texts(self):
-        return sorted(set(norm_text(f.text) for f in self.facts if f.origin == "cond" and f.text))
+        return sorted(set(self._c(f.text) for f in self.facts if f.origin == "cond" and f.text))
+
+    def show_key(self):
+        return "%s|%s|%s" % (self.func, self.arr, norm_text(self.text))
 
 
 def stmt_text(stmt, x):
@@ -103,6 +137,7 @@ class BWalk(omp.Region):
         omp.Region.__init__(self, func, fake, tus)
         self.epoch = collections.Counter()
         self.atom_facts = {}       # atom -> facts that hold by the semantics of the operator that produced it
+        self.canon = NameCanon(func)
         self.out = []
         self.call_sites = []       # (call E, env copy, ranges, facts)
         self.allocs = {}           # local pointer name -> (extent Poly | None, text)
@@ -340,6 +375,7 @@ class BWalk(omp.Region):
     def _leaf_one(self, x, env, ctx, stmt, rw):
         v, idx = self.flat_index(x, env)
         a = Acc()
+        a.canon = self.canon.text
         a.func = self.func.name
         a.var = v
         a.arr = v.name if v is not None else "?"
@@ -1177,7 +1213,8 @@ class Ledger(object):
         self.table = table or {}
         self.req = requirements or {}        # callee name -> {param: [requirement Poly over callee params] | None}
         self.trusted = trusted or {}         # (function, pointer parameter) -> reason: self-describing structure, not ledgered
-        self.sites = sites                   # None: discovery mode (3-part table decides); dict site key[@qualifier] -> confirmed count
+        self.sites = sites                   # None: discovery mode (reason table decides); dict site tuple -> {"n": count, "why": reason}
+        self.sites3 = set(k[:3] for k in sites) if sites is not None else set()
         self.site_use = collections.Counter()
         self.rows = []
         unsigned = set()
@@ -1208,23 +1245,30 @@ class Ledger(object):
         return None, "no extent known for '%s'" % name
 
     def in_table(self, a):
-        """-> (reason | None, site key used)"""
-        k3 = a.key()
-        if k3 not in self.table:
-            return None, None
+        """-> (reason | None, site key used).  Discovery mode (sites None): the human-readable reason table decides by plain
+        key; check mode: only the frozen, alpha-renamed sites do."""
         if self.sites is None:
+            k3 = a.plain_key()
+            if k3 not in self.table:
+                return None, None
             return self.table[k3], a.key4()
         k4 = a.key4()
         for q in a.cond_texts():
-            kq = "%s@%s" % (k4, q)
+            kq = k4 + (q,)
             if kq in self.sites:
-                return self.table[k3], kq
+                return self.sites[kq]["why"], kq
         if k4 in self.sites:
-            return self.table[k3], k4
+            return self.sites[k4]["why"], k4
         return None, None
 
+    def row_elsewhere(self, a):
+        """is there a confirmed precondition row for this (function, array, access) at another statement?"""
+        if self.sites is None:
+            return a.plain_key() in self.table
+        return a.key() in self.sites3
+
     def decide(self, a):
-        key = a.key()
+        key = a.show_key()
         ext, src = self.extent_of(a.var)
         row = dict(acc=a, key=key, extent=ext, extent_src=src, cls=None, why="", used=[], site=None)
         if (self.func.name, a.arr) in self.trusted and a.kind == "elem":
@@ -1269,7 +1313,7 @@ class Ledger(object):
                 row["cls"] = "VIOLATION"
                 row["why"] = "the dominating condition(s) %s constrain this input-dependent index but do not imply %s" % (
                     sorted(set(f.text for f in guarded))[:3], " and ".join(side))
-            elif key in self.table:
+            elif self.row_elsewhere(a):
                 row["cls"] = "UNDECIDED"
                 row["why"] = ("a precondition row exists for this index expression but not at this statement (or more accesses use it than "
                               "were confirmed): the ledger needs review; cannot show %s" % " and ".join(side))
@@ -1378,16 +1422,19 @@ class Ledger(object):
             # callee's documented domain
             for pn, lb in (info.get("domain") or {}).items():
                 a = Acc()
+                a.canon = self.walk.canon.text
                 a.func, a.arr, a.var, a.text, a.rw, a.line = self.func.name, "(domain)", None, "%s(... %s ...)" % (call.name, pn), "r", call.line
                 a.ranges, a.facts, a.stmt, a.length, a.kind, a.callee, a.cparam = ranges, facts, estr(call), Poly.const(1), "domain", call.name, pn
                 a.idx = None
-                row = dict(acc=a, key=a.key(), extent=None, extent_src="", cls=None, why="", used=[])
+                row = dict(acc=a, key=a.show_key(), extent=None, extent_src="", cls=None, why="", used=[], site=None)
                 if pn in sub:
                     ok = self.try_prove(sub[pn] - lb, a, facts)
                     row["cls"] = "PROVEN" if ok is not None and not any(f.origin == "cond" for f in ok) else ("GUARDED" if ok is not None else None)
                 if row["cls"] is None:
-                    if row["key"] in self.table:
-                        row["cls"], row["why"] = "PRECONDITION", self.table[row["key"]]
+                    reason, site = self.in_table(a)
+                    if reason:
+                        row["cls"], row["why"], row["site"] = "PRECONDITION", reason, site
+                        self.site_use[site] += 1
                     else:
                         row["cls"] = "UNDECIDED"
                         row["why"] = "cannot show that argument %s of %s is >= %d as the callee assumes" % (pn, call.name, lb)
@@ -1402,11 +1449,12 @@ class Ledger(object):
                     arg = arg.a[0]
                 if (call.name, pn) in self.trusted or (arg.k == "un" and arg.op == "&" and arg.a[0].k == "var"):
                     a = Acc()
+                    a.canon = self.walk.canon.text
                     a.func, a.var, a.arr = self.func.name, v, (v.name if v is not None else "?")
                     a.text = "%s(%s) as %s" % (call.name, estr(call.a[i]), pn)
                     a.rw, a.line, a.ranges, a.facts = "r", call.line, ranges, facts
                     a.stmt, a.kind, a.callee, a.cparam, a.idx, a.length = estr(call), "region", call.name, pn, off, None
-                    row = dict(acc=a, key=a.key(), extent=None, extent_src="", used=[])
+                    row = dict(acc=a, key=a.show_key(), extent=None, extent_src="", used=[], site=None)
                     if (call.name, pn) in self.trusted:
                         row["cls"], row["why"] = "PRECONDITION", self.trusted[(call.name, pn)]
                     else:
@@ -1419,6 +1467,7 @@ class Ledger(object):
                     reqs = [(None, "?")]
                 for q, qtext in reqs:
                     a = Acc()
+                    a.canon = self.walk.canon.text
                     a.func, a.var = self.func.name, v
                     a.arr = v.name if v is not None else "?"
                     a.text = "%s(%s) needs %s" % (call.name, estr(call.a[i]), qtext)
@@ -1429,9 +1478,11 @@ class Ledger(object):
                     if q is not None and any(x in params and x not in sub for x in a.length.atoms()):
                         a.length = None
                     if a.length is None or v is None or off is None:
-                        row = dict(acc=a, key=a.key(), extent=None, extent_src="", used=[])
-                        if row["key"] in self.table:
-                            row["cls"], row["why"] = "PRECONDITION", self.table[row["key"]]
+                        row = dict(acc=a, key=a.show_key(), extent=None, extent_src="", used=[], site=None)
+                        reason, site = self.in_table(a)
+                        if reason:
+                            row["cls"], row["why"], row["site"] = "PRECONDITION", reason, site
+                            self.site_use[site] += 1
                         elif v is not None and not (("*" in (v.ty or "")) or ("[" in (v.ty or ""))):
                             # address of a scalar: one cell
                             row["cls"], row["why"] = "PROVEN", "address of a scalar"
